@@ -4,7 +4,7 @@ META = dict(
     explanation="Sequential core only. Push and Snapshot hold ChunkList.mutex from first to last instruction, so every loader/coordinator "
                 "interleaving is some sequence of these operations: all sequences up to the bound are explored and every snapshot ever returned "
                 "must still hold, at the end, exactly the items it held when returned. ChunkCache operations are explored against a dictionary model.",
-    functions=["fzf.(*ChunkList).Push", "fzf.(*ChunkList).Snapshot", "fzf.CountItems", "fzf.(*ChunkCache).{Add,Lookup,Search,retire,Clear}"],
+    functions=["fzf.(*ChunkList).Push", "fzf.(*ChunkList).Snapshot", "fzf.CountItems", "fzf.(*ChunkCache).{Add,Lookup,Search,retire,Clear}", "fzf.(*Matcher).Loop / scan / Reset (Loop as a deterministic coroutine, scan's workers inline)"],
     outside=["the Go memory model / data races", "the cancelled/countChan/resultChan protocol of Matcher.scan", "EventBox", "that a superseded search never publishes (goroutines are not encoded)"],
     models=["sync.Mutex no-op: atomicity of critical sections assumed (checked only by reading: Lock first, Unlock on every exit)"],
     assumptions=["chunkSize scaled to 3 (chunk list) / 5 (cache, so that queryCacheMax = 1)"],
@@ -18,6 +18,12 @@ def suites(tier):
         cfg = dict(tail=tail, ops=7 if q else 9)
         jobs.append(dict(id=jid("iso", cfg), func="zzH_C06_chunks", cfg=cfg))
     s1 = src_suite("chunks", jobs, chunkSize=3)
-    cfg = dict(ops=3 if q else 4)
+    cfg = dict(ops=2 if q else 4)
     s2 = src_suite("cache", [dict(id=jid("cache", cfg), func="zzH_C13_cache", cfg=cfg)], chunkSize=5)
-    return [s1, s2]
+    # every result Matcher.Loop publishes is the filter of the snapshot its search was started on
+    ljobs = []
+    for tail in ((0,) if q else (0, 3)):
+        cfg = dict(tail=tail, initial=4, steps=4, symbolic=0)
+        ljobs.append(dict(id=jid("loop", cfg), func="zzH_C08_loop", cfg=cfg, go_inline=True, coroutine_funcs=["Loop"]))
+    s3 = src_suite("loop", ljobs, chunkSize=5)
+    return [s1, s2, s3]
